@@ -7,6 +7,7 @@ From Pipe Require Import Model Base Data Notify Token Closed.
 
 Section Terminal.
   Context (F : pfacts) (f : nat -> nat).
+  Context (Hrep : F.(f_poll_next_replaces_waker) = true).
 
   Definition depth_ok (a : actor) : Prop := a <> ACSetDepth 0.
 
@@ -24,7 +25,7 @@ Section Terminal.
     - intros s a s' Ha (H1 & H2 & H3 & H4 & H5 & H6 & H7 & H8) Hs. split_and!.
       + eapply step_inv_data; eauto.
       + eapply step_inv_shape; eauto.
-      + eapply step_inv_notify; eauto.
+      + eapply (step_inv_notify F f Hrep); eauto.
       + eapply step_inv_fresh; eauto.
       + eapply step_inv_token; eauto.
       + eapply step_inv_closed; eauto.
@@ -40,6 +41,9 @@ Section Terminal.
     unfold job_step, core_locked, core_gone in H; cbn in H. rewrite ?Hl in H.
     destruct pc; cbn in H; rewrite ?Hl in H; repeat case_match; discriminate.
   Qed.
+
+  Lemma poll_step_some s : poll_step F s <> None.
+  Proof. unfold poll_step. destruct (pending s); [destruct (closed s)|]; done. Qed.
 
   Lemma wake_step_some s w : w <> WIdle -> is_Some (wake_step s w).
   Proof. destruct w; cbn; try done; intros _; repeat case_match; eauto. Qed.
@@ -91,16 +95,15 @@ Section Terminal.
     { pose proof Hnd as Hnd'. unfold dropped in Hnd'.
       destruct (cst s) eqn:Ec; try done.
       - (* CIdle: the consumer could poll *)
-        exfalso. cbn in Hpoll. unfold pollable in Hpoll. rewrite Ec in Hpoll.
-        destruct (pending s); [destruct (closed s)|]; done.
+        exfalso. cbn in Hpoll. unfold pollable in Hpoll. rewrite Ec in Hpoll. by apply (poll_step_some s).
       - (* CPend *)
         exfalso. destruct (cwoken s) eqn:Ew.
-        { cbn in Hpoll. unfold pollable in Hpoll. rewrite Ec, Ew in Hpoll.
-          destruct (pending s); [destruct (closed s)|]; done. }
+        { cbn in Hpoll. unfold pollable in Hpoll. rewrite Ec, Ew in Hpoll. by apply (poll_step_some s). }
         assert (Hw : cons_waiting s = true) by (unfold cons_waiting; rewrite Ec, Ew; done).
         destruct (Hnb Hw) as [Hn|Hi]; [|unfold cons_wake_inflight in Hi; rewrite Hrun in Hi; done].
-        destruct (Hna Hnd Hn) as [Hp Hcl].
-        specialize (Hbp Hnd Hn).
+        assert (Hn' : is_Some (notify s)) by (rewrite Hn; eauto).
+        destruct (Hna Hnd Hn') as [Hp Hcl].
+        specialize (Hbp Hnd Hn').
         destruct (poll_fn s) eqn:Epf; [|specialize (C4 Hnd eq_refl); congruence].
         specialize (Htok Epf Hnd). unfold tokens, rtok in Htok.
         rewrite Hq, Hrun, Hbp, Hcw, Hew in Htok. cbn in Htok.
